@@ -58,7 +58,7 @@ CoverReq(f, opts) ==
        inSubmodule == \E i \in 1..n : f.anc[i].submodule
        mesonTop    == n >= 2 /\ f.anc[1].cls = "subprojects"                      \* <root>/subprojects/X/...
        mesonDeep   == \E i \in 2..(n - 1) : f.anc[i].cls = "subprojects"
-   IN  IF f.type \in {"empty", "symlink"} \/ viaSymlink THEN "mustnot"
+   IN  IF f.type \in {"empty", "symlink", "special"} \/ viaSymlink THEN "mustnot"   \* special: socket, named pipe, device - not a regular file
        ELSE IF f.ncls \in ExcludedNameClass THEN "mustnot"
        ELSE IF blockedTop \/ vcsIgnored THEN "mustnot"
        ELSE IF inSubmodule /\ ~opts.submodules THEN "mustnot"
